@@ -9,6 +9,8 @@
 #include <vector>
 #include <string>
 #include <functional>
+#include <csignal>
+#include <csetjmp>
 
 namespace vh
 {
@@ -143,6 +145,19 @@ namespace vh
     return MT(rows, cols, va, of);
   }
 
+  // run f under a SIGSEGV/SIGFPE guard: 0 = returned, 1 = FEAT abort / exception, 2 = memory fault (native crash of the real code)
+  inline sigjmp_buf& segv_buf() { static sigjmp_buf b; return b; }
+  inline void segv_handler(int) { siglongjmp(segv_buf(), 1); }
+  template<typename F> int guarded(F f)
+  {
+    struct sigaction sa, old1, old2; std::memset(&sa, 0, sizeof sa); sa.sa_handler = segv_handler; sa.sa_flags = SA_NODEFER; sigemptyset(&sa.sa_mask);
+    sigaction(SIGSEGV, &sa, &old1); sigaction(SIGBUS, &sa, &old2);
+    int rc = 0;
+    if(sigsetjmp(segv_buf(), 1) == 0) { try { f(); } catch(const FeatAbort&) { rc = 1; } catch(const std::exception&) { rc = 1; } }
+    else rc = 2;
+    sigaction(SIGSEGV, &old1, nullptr); sigaction(SIGBUS, &old2, nullptr);
+    return rc;
+  }
   // run f, report whether the FEAT abort stub was reached
-  template<typename F> bool aborted(F f) { try { f(); } catch(const FeatAbort&) { return true; } return false; }
+  template<typename F> bool aborted(F f) { try { f(); } catch(const FeatAbort&) { return true; } catch(const std::exception&) { return true; } return false; }
 }
